@@ -32,6 +32,12 @@ def datasets():
     for g in ("D", "g1"):      # one subject with consecutive values: an increment's insertion is another solution's deletion
         out.append([[I("n1"), I("p"), N(1), g], [I("n1"), I("p"), N(2), g], [I("n1"), I("p"), N(3), g]])
         out.append([[I("n1"), I("p"), N(2), g], [I("n1"), I("p"), N(1), g], [I("n2"), I("p"), N(2), g]])
+    # chains a -> b -> c -> d under one predicate, stored front to back and back to front
+    chain = [[I("n1"), I("p"), I("n2")], [I("n2"), I("p"), I("n3")], [I("n3"), I("p"), I("n4")], [I("n4"), I("p"), I("n5")]]
+    for g in ("D", "g1"):
+        out.append([t + [g] for t in chain])
+        out.append([t + [g] for t in reversed(chain)])
+        out.append([t + [g] for t in chain[:2]] + [[I("n3"), I("p"), I("n1"), g]])
     # a chain with a shared middle: deleting for one solution removes what another solution matched
     for g in ("D", "g1"):
         out.append([[I("n1"), I("p"), I("n2"), g], [I("n2"), I("q"), I("n3"), g], [I("n3"), I("p"), I("n2"), g]])
@@ -83,6 +89,13 @@ def requests():
     rs.append([mod(grp(SPO), ins=[Q((V("s"), I("r"), V("o")), V("o"))])])
     rs.append([mod(grp(SPO), ins=[Q((V("s"), I("r"), V("o")), V("nope"))])])
     rs.append([mod(grp(SPO), dele=[Q((V("s"), I("p"), V("o")), V("o"))], ins=[Q((V("o"), I("r"), V("s")), V("s"))])])
+    # DELETE without INSERT whose WHERE looks (EXISTS / NOT EXISTS / OPTIONAL) at triples the template removes for another solution
+    xpy = bgp((V("x"), I("p"), V("y")))
+    for inner in (bgp((V("y"), I("p"), V("z"))), bgp((V("z"), I("p"), V("x"))), bgp((V("y"), I("q"), V("z")))):
+        for k in ("exists", "notexists"):
+            rs.append([mod(grp(xpy, {"t": "filter", "e": {"e": k, "g": grp(inner)}}), dele=[Q((V("x"), I("p"), V("y")))])])
+            rs.append([mod(grp(xpy, {"t": "filter", "e": {"e": k, "g": grp(inner)}}), with_="g1", dele=[Q((V("x"), I("p"), V("y")))])])
+        rs.append([mod(grp(xpy, {"t": "optional", "g": grp(inner)}), dele=[Q((V("x"), I("p"), V("y"))), Q((V("y"), I("p"), V("z")))])])
     # modify: one solution's insertion is another solution's deletion
     inc = grp(SPO, {"t": "bind", "e": {"e": "+", "a": ev("o"), "b": ec(N(1))}, "v": "n"})
     rs.append([mod(inc, dele=[Q((V("s"), I("p"), V("o")))], ins=[Q((V("s"), I("p"), V("n")))])])
@@ -155,8 +168,16 @@ def run(out, tier, seed):
                 continue
             data = {"op": "data", "quads": d, "graphs": ["g1", "g2"]}
             cfgs = [{"facade": "dataset", "union_default": False}, {"facade": "dataset", "union_default": True}, {"facade": "cg", "union_default": True}, {"facade": "cg", "union_default": False}]
-            jobs.append({"cfg": cfgs[(ri + di) % 4], "events": [data, {"op": "update", "ops": r}]})
+            jobs.append({"cfg": cfgs[(ri + di) % 4], "events": [data, {"op": "update", "ops": r, "prologues": len(r) > 1 and (ri + di) % 2 == 0}]})
             if only_default(r) and (ri + di) % 3 == 0:
                 jobs.append({"cfg": {"facade": "graph"}, "events": [{"op": "data", "quads": [q for q in d if q[3] == "D"], "graphs": []}, {"op": "update", "ops": r}]})
+    # through a plain Graph: graph management aimed at other graphs (SILENT) leaves the graph as it is; DEFAULT empties it
+    for di, d in enumerate(ds[::7]):
+        dq = [q for q in d if q[3] == "D"]
+        for k in ("clear", "drop"):
+            for t in ("NAMED", "g1", "g9", "DEFAULT"):
+                jobs.append({"cfg": {"facade": "graph"}, "events": [{"op": "data", "quads": dq, "graphs": []}, {"op": "update", "ops": [{"u": k, "target": t, "silent": True}]}]})
+                jobs.append({"cfg": {"facade": "graph"}, "events": [{"op": "data", "quads": dq, "graphs": []},
+                                                                    {"op": "update", "ops": [{"u": "insertdata", "quads": [T[3] + [{"k": "g", "v": ""}]]}, {"u": k, "target": t, "silent": True}]}]})
     out.exhaustive = not quick
     out.conform(__name__, TRACE, jobs, nontrivial=nontrivial, chunk=300, par=16)
